@@ -571,3 +571,6 @@ Proof.
   - repeat constructor.
   - intros cs c H. cbn [x_valid] in H. apply (list_beq_eq Z.eqb) in H; [exact H|intros; apply Z.eqb_eq].
 Qed.
+
+Lemma process_independent : downloads_code_is_process_independent = true.
+Proof. reflexivity. Qed.
